@@ -44,7 +44,7 @@ def main():
                 shutil.copy(src, ddir)
         # the demo command may mention the agent's worktree path
         cmd = demo_cmd.replace("/tmp/mut/wt-%s" % meta.get("property", ""), wt)
-        rc0, out0 = sh(cmd, wt if "cd " in cmd else ddir)
+        rc0, out0 = sh(cmd, wt if ("cd " in cmd or (demo_dir not in ("", ".") and demo_dir in cmd)) else ddir)
         ran.append({"step": "demo on unchanged tree", "cmd": cmd, "exit": rc0})
         rc, out = sh("git apply " + os.path.abspath(os.path.join(cand, "patch.diff")), wt)
         ran.append({"step": "git apply patch.diff", "exit": rc})
@@ -64,7 +64,7 @@ def main():
         for d in os.listdir(stash):
             shutil.move(os.path.join(stash, d), ddir)
         shutil.rmtree(stash, ignore_errors=True)
-        rc1, out1 = sh(cmd, wt if "cd " in cmd else ddir)
+        rc1, out1 = sh(cmd, wt if ("cd " in cmd or (demo_dir not in ("", ".") and demo_dir in cmd)) else ddir)
         ran.append({"step": "demo with patch", "cmd": cmd, "exit": rc1})
         ok = rc0 == 0 and suite_ok and rc1 != 0
         print("demo unchanged exit=%d, suite with patch %s, demo with patch exit=%d -> %s" % (
